@@ -19,20 +19,26 @@ Proof.
   pose proof current_specs_ok as H. rewrite forallb_forall in H. apply H, all_pclass_complete.
 Qed.
 
-Lemma contained_now p fails c acts : fst (server_handle fails c server_spec (handle_spec p) acts) = Contained.
-Proof. apply contained. exact current_server_ok. Qed.
+(* nothing reachable from getProtocol writes to the connection *)
+Lemma classification_is_silent : classify_write_sites = [].
+Proof. reflexivity. Qed.
 
-Lemma logged_now p fails c acts o s :
-  server_handle fails c server_spec (handle_spec p) acts = (o, s) ->
+Lemma contained_now p fails c pre acts : silent pre = true ->
+  fst (connection fails c server_spec (handle_spec p) pre acts) = Contained.
+Proof. apply connection_contained. exact current_server_ok. Qed.
+
+Lemma logged_now p fails c pre acts o s : silent pre = true ->
+  connection fails c server_spec (handle_spec p) pre acts = (o, s) ->
   (forall e, In e (log s) -> e_after e = true -> e_cls e = LIO c /\ e_addr e = true) /\
   (faulted fails s = true -> exists e, In e (log s) /\ e_after e = true).
 Proof.
-  intros H. exact (proj2 (logged_own_class fails c server_spec (handle_spec p) acts current_server_ok (spec_ok_at p) o s H)).
+  intros Hs H.
+  exact (proj2 (connection_logged fails c server_spec (handle_spec p) pre acts current_server_ok (spec_ok_at p) Hs o s H)).
 Qed.
 
-Lemma files_closed_now p fails c acts : balanced acts ->
-  depth (snd (server_handle fails c server_spec (handle_spec p) acts)) = 0.
-Proof. apply files_closed. Qed.
+Lemma files_closed_now p fails c pre acts : balanced (pre ++ acts) ->
+  depth (snd (connection fails c server_spec (handle_spec p) pre acts)) = 0.
+Proof. apply connection_files_closed. Qed.
 
 (* the open( call sites that are not the context expression of a with statement
    are exactly the listed reference-counted resources *)
